@@ -41,6 +41,9 @@ type c14Conf struct {
 	MaxBytes     int  `json:"maxBytes"`
 	Exp          int  `json:"exp"`
 	StoreHeaders bool `json:"storeHeaders"`
+	// OwnClock: the process never starts the clock shared through gofiber/utils (no memory-backed middleware, no
+	// StartTimeStampUpdater): only external-storage histories are run, the storage keeps time by itself
+	OwnClock bool `json:"ownClock"`
 }
 
 func cacheApp(cf c14Conf, storage fiber.Storage, s *sched) fasthttp.RequestHandler {
@@ -288,16 +291,26 @@ func TestC14Hist(t *testing.T) {
 		hists = append(hists, h.Hist)
 	})
 	synctest.Test(t, func(t *testing.T) {
-		utils.StartTimeStampUpdater()
+		kinds := []string{"memory", "external"}
+		if cf.OwnClock {
+			kinds = []string{"external"}
+		} else {
+			utils.StartTimeStampUpdater()
+		}
 		time.Sleep(500 * time.Millisecond)
 		o := newOut(t)
 		var nReq, nHit, nEvictish, nAmbSkipped int
 		for hi, hist := range hists {
-			for _, kind := range []string{"memory", "external"} {
+			for _, kind := range kinds {
 				// accounting (MaxBytes) is per middleware instance: a fresh instance per history
 				var st fiber.Storage
 				if kind == "external" {
-					st = newGatedStorage(newSched(), nil)
+					gs := newGatedStorage(newSched(), nil)
+					if cf.OwnClock {
+						gs.clock = func() uint32 { return uint32(time.Now().Unix()) }
+						gs.t0 = gs.clock()
+					}
+					st = gs
 				}
 				h := cacheApp(cf, st, nil)
 				for step, e := range hist {
@@ -343,7 +356,7 @@ func TestC14Hist(t *testing.T) {
 						break
 					}
 				}
-				if hi%97 == 0 && kind == "memory" {
+				if hi%97 == 0 && kind == kinds[0] {
 					o.sample(map[string]any{"conf": cf, "history": hist})
 				}
 			}
